@@ -127,6 +127,9 @@ type Interp struct {
 	symNames   map[string]StrV
 	pfRE       []*regexModel
 	prefer     *Term
+	lastSec    *Term
+	firstSec   *Term
+	unixOf     map[*Term]*Term
 	clockWindow *Term
 	pid        *Term
 
@@ -193,6 +196,7 @@ func (in *Interp) resetPath() {
 	in.digitCache = map[*Term]StrV{}
 	in.digitList = nil
 	in.symNames = nil
+	in.lastSec, in.firstSec, in.unixOf = nil, nil, nil
 	in.lastNow = nil
 	in.firstNow = nil
 	in.clockWindow = nil
